@@ -647,7 +647,8 @@ impl Engine for C02 {
         })
     }
     fn n_runs(&self, tier: Tier) -> u64 {
-        tier.pick(1200, 120_000)
+        // 839 jet-sweep runs, then seeded bases
+        tier.pick(839 + 1200, 839 + 120_000)
     }
     fn rlimit_as(&self) -> u64 {
         RLIMIT
@@ -659,6 +660,24 @@ impl Engine for C02 {
     fn run(&self, run: u64, seed: u64, tier: Tier, out: &mut RunOut) {
         let mut r = Rng::new(seed);
         let family = if r.chance(1, 3) { Family::Elements } else { Family::Core };
+        // ---- the first runs of every batch sweep the jet tables: one small valid program per Core
+        // and Elements jet (the jet applied to a witness), delivered fault-free to all three
+        // decoders: every jet's bit code must decode to the jet that encodes to it
+        let n_core = Family::Core.n_jets() as u64;
+        let n_all = n_core + Family::Elements.n_jets() as u64;
+        if run < n_all {
+            let (fam, idx) = if run < n_core { (Family::Core, run as usize) } else { (Family::Elements, (run - n_core) as usize) };
+            let rec = programs::Recipe { family: fam, ops: vec![programs::GOp::JetApplied(idx)], close: programs::Close::Early, wit_seed: r.next_u64() };
+            match programs::build(&rec) {
+                Some(b) => {
+                    out.count("jet_sweep_programs", 1);
+                    let (p, w) = b.redeem.to_vec_with_witness();
+                    self.deliver(fam, &p, &w, "jet-sweep", &[], &mut r, out, true, true, None);
+                }
+                None => out.count("jet_sweep_not_buildable", 1),
+            }
+            return;
+        }
         // ---- choose the base encoding
         let kind = r.weighted(&[60, 6, 8, 6, 10, 6, 3, 3]);
         let (program, witness, origin): (Vec<u8>, Vec<u8>, String) = match kind {
@@ -852,6 +871,7 @@ impl Engine for C02 {
             "canon_unshared_duplicate",
             "canon_repeated_hidden_node",
             "source_bomb_bases",
+            "jet_sweep_programs",
             "huge_word_header_bases",
         ]
     }
